@@ -61,4 +61,10 @@ META = {
   text="Every I/O operation of ten representative step scenarios is failed once in each of five ways (about 750 fault points, complete for those scenarios), and random multi-fault histories add breadth; the atomicity invariant is evaluated in every committed state, in the state left by the failure, after process restart, and the retry must converge to the fault-free result.",
   note="Trusted: fakepg transaction semantics (overlay per connection, atomic commit under one mutex, rollback on disconnect), sim node fault injection, projection model.",
  ),
+ "C14": dict(
+  design_ref="DESIGN.md §5 C14",
+  technique="exhaustive enumeration of all single fields and all field pairs (627 sets) + rapid larger sets, each through the full path against a chain of distinct non-zero values",
+  text="All singles and pairs are enumerated completely in both declaration contexts; larger sets are sampled by provenance class. A selected field that is not fetched shows up as a zero/empty column against distinct non-zero source values.",
+  note="Trusted: sim node JSON rendering, fakepg value decoding (pgx codecs), model.FieldValue provenance.",
+ ),
 }
